@@ -743,7 +743,7 @@ inline vf::Spec make_spec(vf::Tier t, std::uint32_t rounds_quick, std::uint32_t 
     s.n_enum     = p.prefix.back();
     s.n_random   = std::uint64_t(p.rnd.size()) * (t == vf::Tier::thorough ? rounds_thorough : rounds_quick);
     s.batch      = 8;
-    s.timeout_s  = 300;
+    s.timeout_s  = 60;
     s.exhaustive = true;
     return s;
 }
